@@ -830,6 +830,7 @@ class state_machine_base : public FrontEnd
         completion_event_occurrence(uint8_t region_id)
             : event_occurrence(&try_process), m_region_id(region_id)
         {
+            this->set_completion_event();
         }
 
         static std::optional<process_result> try_process(event_occurrence& self, void* sm, uint16_t /*seq_cnt*/)
@@ -912,6 +913,14 @@ class state_machine_base : public FrontEnd
                 continue;
             }
 
+            // Once the limit is reached, only completion transitions
+            // triggered by the last processed event may still fire.
+            const bool is_completion_event = event.is_completion_event();
+            if (processed_events == max_events && !is_completion_event)
+            {
+                break;
+            }
+
             std::optional<process_result> result =
                 event.try_process(self(), event_pool.cur_seq_cnt);
             // The event has not been dispatched.
@@ -921,14 +930,12 @@ class state_machine_base : public FrontEnd
                 continue;
             }
 
-            // Consider anything except "only deferred" to be a processed event.
-            if (*result != process_result::HANDLED_DEFERRED)
+            // Consider anything except "only deferred" to be a processed event
+            // (completion transitions belong to the event that triggered them).
+            if (*result != process_result::HANDLED_DEFERRED &&
+                !is_completion_event)
             {
                 processed_events++;
-                if (processed_events == max_events)
-                {
-                    break;
-                }
             }
 
             // Start from the beginning, we might be able to process
